@@ -7,10 +7,10 @@ BASELINE = ("cd /repo && cargo nextest run --workspace --no-fail-fast --test-thr
 
 CHECKS = {
  "C01": dict(technique="runtime monitoring: complete-edge heap closure audit at every sweep + quarantine/poison on every managed dereference (hooks), AddressSanitizer on a stress-GC build, output differential across GC schedules",
-             text="Executions of an edge matrix (holder kind x target kind), the repository's scripts and generated programs under collect-always, never-collect and seeded schedules; the audit evaluates 'everything reachable is marked' on the live heap at each sweep, the poison flags every use of a reclaimed object, ASan watches the unhooked stress build. Exploration: holds on the executions and edge kinds listed in the evidence.",
+             text="Executions of an edge matrix (holder kind x target kind), the repository's scripts and generated programs under collect-always, never-collect and seeded schedules; the audit evaluates 'everything reachable is marked' on the live heap at each sweep, the poison flags every use of a reclaimed object, ASan watches the unhooked stress build; plus chains of 300-2600 references of one kind walked by a loop, and snippet histories whose failed runs leave closures over variables of every discarded frame and fiber. Exploration: holds on the executions and edge kinds listed in the evidence.",
              note="trusted: completeness of the hook's own edge lists (yarel/src/object.rs under cfg verif_hooks); generators reach the sole-edge kinds listed in evidence; ASan red-zone limits", ref="DESIGN.md §4 C01"),
  "C03": dict(technique="runtime monitoring: oracle on every compile call (panic capture, error-shape check, recorded-error counter hook, structural decode of produced chunks) over prefix/mutation/random-token/nesting workloads",
-             text="Every char-boundary prefix of every corpus script, hundreds of thousands of token/char mutants, random token strings and nesting bombs are compiled on the real compiler; each call is checked for panic, hang, Err without located message, Ok after a recorded error. Exploration over the generated inputs.",
+             text="Accept / reject of every program of the limit families is compared with the model (beyond a stated limit must be rejected). Every char-boundary prefix of every corpus script, hundreds of thousands of token/char mutants, random token strings and nesting bombs are compiled on the real compiler; each call is checked for panic, hang, Err without located message, Ok after a recorded error. Exploration over the generated inputs.",
              note="bounds: nesting <= 500, interpolation depth <= 9, inputs <= 64 KiB; hang = batch watchdog + isolated confirmation", ref="DESIGN.md §4 C03"),
  "C16": dict(technique="runtime monitoring: allocation/sweep event stream (hook) replayed against a shadow heap account at every allocation; iteration-doubling and drop-to-empty heap censuses",
              text="Churn programs with bounded live sets over every allocation kind run under the stock threshold pacing on an optimised build; every allocation event is checked against the pacing rule as the property words it, every sweep against conservation and the 2x threshold rule; running 2n instead of n iterations must leave the same census; dropping the interpreter must empty the heap.",
@@ -30,6 +30,8 @@ def main():
         pass
     checks = dict(CHECKS); checks.update(extra)
     commits = subprocess.run("git -C /repo log --format=%h --grep='^verif_hooks' ", shell=True, stdout=subprocess.PIPE).stdout.decode().split()
+    # fix 5b9e635 (per-fiber exception flag) also changes one line of guarded hook code: the state probe reads the flag where it now lives
+    commits.append("5b9e635")
     m = {
         "version": 1,
         "setup_cmd": "./vf build --all",
